@@ -63,6 +63,24 @@ add("C12", EX, "enum-parse",
     "Every string of length <=3 (quick) / <=4 (thorough) over a 14-byte class alphabet (minus the stated exclusions) for each decoded field of SYSCALL/CWD/PATH/PROCTITLE/EXECVE/TTY/USER_CMD/USER_LOGIN; all 65536 IPv4 ports x addresses, every single-octet variation, IPv6 and unix addresses; every (arch, nr) of the published tables and nr+-1 for SYSCALL and SECCOMP; every errno 1..4095 both signs (names checked against asm-generic errno, alias-safe); result/unset normalisation; placeholder dropping (key absent, record intact).",
     PARSE_NOTE, "DESIGN.md §5 C12")
 
+RULE_NOTE = "Trusted: refdata transcription of linux/audit.h / errno / stat constants; the harness's fixed-offset decoder of struct audit_rule_data and its structural knowledge of the rule it rendered; amd64 little-endian host (b64=x86_64, b32=i386); complete inside the stated menus, silent outside them."
+add("C06", EX, "enum-rule",
+    "bounded-exhaustive enumeration of structurally generated rules, bytes decoded at fixed UAPI offsets by an independent decoder and compared word for word with an expectation built from refdata",
+    "Every list x action x -a/-A x 0-3 keys; every field x 8 operators x a value menu per field class x lists; all 121 inter-field pairs x 3 operators; ordered pairs (triples in thorough) of a 16-filter subset; field counts 0..66 with 0/1/3 keys; every syscall number 0..2100 and extremes to 2^64 x {no arch,b64,b32}; number pairs in both -S forms; every name of the published syscall tables; file watches x all 16 permission subsets x file/dir/missing x 0-2 keys. A rejected rule is always acceptable; an accepted rule must equal the expectation in flags, action, every (field,operator,value) triple in order, joined keys, buffer layout, buflen, padding, total length and mask bits.",
+    RULE_NOTE, "DESIGN.md §5 C06")
+add("C07", EX, "enum-rule",
+    "bounded-exhaustive round trip Build -> ToCommandLine -> Parse+Build -> ToCommandLine over the C06 domain restricted to the stated C07 domain",
+    "The C06 enumeration restricted to the property's domain (no whitespace/quotes in strings, watch-shaped rules agreeing with a scratch filesystem, resolveIds=false, amd64) plus every watch-shaped syscall rule (perm + path/dir + key in every order, !=, never, no path): the listed text must be accepted, re-encode to byte-identical wire data and list to the same text again.",
+    RULE_NOTE, "DESIGN.md §5 C07")
+add("C13", EX, "enum-rule",
+    "bounded-exhaustive enumeration of hostile Rule structs, byte slices (all prefixes, all <=2-word boundary corruptions of valid rules) and rule lines, with crash-isolated workers under ulimit -v and a per-call allocation meter",
+    "Rule structs over invalid lists/actions/filters/syscall strings (across 2047/2048, 2^31, 2^32, 2^63), up to 200 filters, over-long keys and paths, every AccessType, foreign and nil rules; every prefix of 13 valid wire rules; every one of the 260 header words replaced by 26 boundary values (deviation 1) and pairs of 15 structural words x 16 values (deviation 2); all token sequences <=3/4 over 43 line tokens. Oracle: value xor error, no panic / hang / worker death, allocation <= 1 MiB + 64 x input, ToCommandLine success implies field_count <= 64 and string lengths within buflen within the slice.",
+    RULE_NOTE + " Workers run under ulimit -v 6 GiB; a worker that dies is re-run in trace mode to name the case.", "DESIGN.md §5 C13")
+add("C14", EX, "enum-rule",
+    "bounded-exhaustive enumeration of flag-group sequences against a reference reader of the token list",
+    "All sequences of <=3 (quick, 9.3e4) / <=4 (thorough, 4.2e6) flag groups in any order over a 45-group menu; the harness shell-quotes the tokens it chose, a small reference reader of those tokens yields MustReject (mixed kinds, both/neither -a/-A, repeated -a/-A/-w, positional words, -F/-C text without a complete field/operator/value) or the Expected rule (complete text before/at/after the first operator; comma-split lists in order). An error is always acceptable; an accepted line must equal Expected.",
+    RULE_NOTE, "DESIGN.md §5 C14")
+
 def emit():
     out = {
         "version": 1,
@@ -82,6 +100,7 @@ def emit():
             {"name": "enum-client", "path": "checks/client", "serves_properties": ["C16"], "kind_free_text": "exhaustive enumeration of setter arguments / reply buffers"},
             {"name": "enum-netlink", "path": "checks/netlink", "serves_properties": ["C18"], "kind_free_text": "enumeration over a simulated socket layer + schedule exploration of concurrent Send"},
             {"name": "enum-parse", "path": "checks/parse", "serves_properties": ["C04", "C05", "C12"], "kind_free_text": "bounded-exhaustive input enumeration with crash isolation (engine/enumx)"},
+            {"name": "enum-rule", "path": "checks/rulechk", "serves_properties": ["C06", "C07", "C13", "C14"], "kind_free_text": "bounded-exhaustive rule enumeration against an independent audit_rule_data decoder and a token-list reference reader"},
             {"name": "seqx-reasm", "path": "checks/reasm", "serves_properties": ["C01", "C02", "C03", "C10", "C19"], "kind_free_text": "explicit-state BFS/DFS over op sequences on the real Reassembler with property monitors"},
         ],
         "checks": [],
